@@ -1,5 +1,7 @@
 (** SourceInfo::pos_for (antlr/src/ast/mod.rs): the (line, column) reported for a byte offset,
-    over the source as a list of UTF-8 bytes. *)
+    over the source as a list of UTF-8 bytes.  The column counts characters (as the columns of
+    syntax errors do): one more than the number of characters of the line that start before the
+    offset. *)
 From Cel.Model Require Export Base.
 
 (** str::split_inclusive('\n'): pieces end with the newline they were split at. *)
@@ -10,13 +12,16 @@ Fixpoint split_inclusive (s : list N) (cur : list N) : list (list N) :=
               else split_inclusive r (c :: cur)
   end.
 
+Definition is_cont (b : N) : bool := ((128 <=? b) && (b <? 192))%N.     (* UTF-8 continuation byte *)
+Definition nchars (bs : list N) : nat := length (filter (fun b => negb (is_cont b)) bs).
+
 Fixpoint pos_in (pieces : list (list N)) (start offset line : nat) : option (nat * nat) :=
   match pieces with
   | [] => None
   | l :: rest =>
       let line' := S line in
       let offset' := (offset + length l)%nat in
-      if Nat.ltb start offset' then Some (line', (start + length l - offset' + 1)%nat)
+      if Nat.ltb start offset' then Some (line', (nchars (firstn (start - offset) l) + 1)%nat)
       else pos_in rest start offset' line'
   end.
 
